@@ -509,3 +509,61 @@ func NeighbourKeys(r *RNG, n int) [][]byte {
 
 // NeighbourKeyLengths are the key lengths NeighbourKeys is worth calling with.
 var NeighbourKeyLengths = []int{1, 2, 10, 19, 20, 21, 32, 33, 63, 64, 65, 66, 100, 127, 128, 129, 130, 160, 161, 200, 255, 256, 257, 300, 1000}
+
+// CaseOddRunes: letters whose lower- or upper-case mapping has a different UTF-8 length, or maps onto ASCII
+// (Kelvin sign -> k, long s -> S, dotless i -> I, Ohm -> omega, Angstrom -> a-ring, capital sharp s, dotted capital I,
+// U+023A/U+023E whose lower case is one byte longer, titlecase digraphs).
+var CaseOddRunes = []rune{0x212A, 0x017F, 0x0131, 0x0130, 0x2126, 0x212B, 0x1E9E, 0x023A, 0x023E, 0x2C65, 0x01C5, 0x01C8, 0x00DF, 0x0149, 0x1F88, 0xFB00}
+
+// CaseOddString returns a short string mixing ASCII letters with CaseOddRunes.
+func CaseOddString(r *RNG) string {
+	n := 1 + r.Intn(4)
+	s := ""
+	for i := 0; i < n; i++ {
+		if r.Intn(3) == 0 {
+			s += string(rune('A' + r.Intn(26)))
+		} else {
+			s += string(Pick(r, CaseOddRunes))
+		}
+	}
+	return s
+}
+
+// Related derives a second argument from a first one the way real callers' data is related: equal, another letter
+// case (with Go's Unicode mappings, which may change the byte length), the first as a "prefix:" of the second, a
+// suffix, doubled, cut inside a multi-byte character.
+func Related(r *RNG, s string, lower, upper func(string) string) string {
+	rest := Pick(r, []string{"", "a", "alice@example.com", ":", " x"})
+	switch r.Intn(12) {
+	case 0:
+		return s
+	case 1:
+		return lower(s)
+	case 2:
+		return upper(s)
+	case 3:
+		return s + ":" + rest
+	case 4:
+		return lower(s) + ":" + rest
+	case 5:
+		return upper(s) + ":" + rest
+	case 6:
+		return s + ": " + rest
+	case 7:
+		return rest + ":" + s
+	case 8:
+		return s + s
+	case 9:
+		if len(s) > 1 {
+			return s[:len(s)-1]
+		}
+		return s
+	case 10:
+		if len(s) > 1 {
+			return s[1:] + ":" + rest
+		}
+		return s
+	default:
+		return lower(s) + rest
+	}
+}
